@@ -247,7 +247,7 @@ theorem step_ghRel {σ} (g : Rng σ) (m m' : MacState) (rs rs' : σ) (ev : Ev) (
       exact hr
     | some last =>
       obtain ⟨s, hst, rfl, hl⟩ := hr
-      obtain ⟨so, m1, _, hst1, _, ht⟩ :=
+      obtain ⟨so, m1, _, _, hst1, _, ht⟩ :=
         step_uplink_joined g m m' rs rs' s hst hl data fport conf fault rx1 rx2 mp1 mp2 hv.1 hv.2 out h
       have hr1 : GhRel m1 (some s.fcntDown) := ⟨_, hst1, rfl, hl⟩
       simp only [Option.map_some]
